@@ -358,7 +358,9 @@ func runCloneCompleteness(c *core.Ctx) {
 				walkP(l)
 			}
 		}
-		walkP(pf)
+		for _, g := range withLocalHelpers(c.P, pf) {
+			walkP(g) // Persist itself, or an unexported helper it calls (the write may have been extracted)
+		}
 		c.Check("snapshot-is-a-value", pf.Name+"/marshals-own-Data", pf.PosStr(), marshalOnOwn, "Persist must marshal the *Data captured by Snapshot()")
 	}
 }
@@ -634,6 +636,16 @@ func runC07(c *core.Ctx) {
 			if ta, ok := nd.(*ast.TypeAssertExpr); ok && ta.Type != nil {
 				if t := info.TypeOf(ta.Type); t != nil && types.Identical(t, types.Universe.Lookup("error").Type()) {
 					respUsed = true
+				}
+			}
+			// or a type switch with an arm for error
+			if ts, ok := nd.(*ast.TypeSwitchStmt); ok {
+				for _, s := range ts.Body.List {
+					for _, x := range s.(*ast.CaseClause).List {
+						if t := info.TypeOf(x); t != nil && types.Identical(t, types.Universe.Lookup("error").Type()) {
+							respUsed = true
+						}
+					}
 				}
 			}
 			return true
